@@ -73,7 +73,8 @@ def render_op(o):
     if op == "lit":
         body = {"empty": "{}", "data_a": "{a: %s}" % v, "data_1": "{1: %s}" % v, "two": "{b: %s, a: %s}" % (v, v),
                 "getter_a": "{%s}" % G1, "getset_a": "{%s, %s}" % (G1, S1A), "set_b": "{%s}" % S1B,
-                "comp_b": "{[kb]: %s}" % v, "proto": "{__proto__: %s, a: %s}" % (js_ref(p), v)}[f]
+                "comp_b": "{[kb]: %s}" % v, "proto": "{__proto__: %s, a: %s}" % (js_ref(p), v),
+                "protogs": "{__proto__: %s, %s, %s}" % (js_ref(p), G1, S1A)}[f]
         return "%s = %s" % (x, body)
     if op == "create":
         return "%s = Object.create(%s)" % (x, js_ref(p))
